@@ -731,7 +731,8 @@ class SArr(object):
     def argsort(self, axis=-1, kind=None, **kw):
         if self.a.ndim != 1:
             raise Unsupported("argsort on nd array")
-        return SArr(_obj_array(_argsort_cells(self.a.tolist())), rnp.dtype("i8"))
+        stable = kind in ("stable", "mergesort")
+        return SArr(_obj_array(_argsort_cells(self.a.tolist(), stable)), rnp.dtype("i8"))
 
     def sort(self, axis=-1, kind=None, **kw):
         if self.a.ndim != 1:
@@ -874,13 +875,23 @@ def _maximum_cells(cells):
     return r
 
 
-def _argsort_cells(cells):
-    """stable insertion sort on symbolic comparisons (forks); returns index list"""
+def _argsort_cells(cells, stable=True):
+    """insertion sort on symbolic comparisons (forks); returns index list.
+    stable=False models NumPy's default (SIMD) quicksort: the relative order of equal
+    elements is unspecified, so each tie is a nondeterministic choice (forked)."""
     order = []
+    cx = symx.Ctx.current
     for i, c in enumerate(cells):
         j = _py_len(order)
-        while j > 0 and bool(c < cells[order[j - 1]]):
-            j -= 1
+        while j > 0:
+            o = cells[order[j - 1]]
+            if bool(c < o):
+                j -= 1
+                continue
+            if not stable and cx is not None and bool(c == o) and cx.nondet("tie"):
+                j -= 1
+                continue
+            break
         order.insert(j, i)
     return order
 
@@ -1503,3 +1514,6 @@ class _Random(object):
 
 
 random = _Random()
+
+lib = rnp.lib
+__version__ = rnp.__version__
